@@ -159,6 +159,13 @@ theorem fourthPass_wf (blocks : List (List Nat)) (nexts : List (List Nat)) (bs b
         have := inner_wf blocks id _ bs bs1 hlen h h1
         exact ih bs1 this.2 this.1 hr
 
+/-- the graph the subroutine discovery of `parseTeal` runs on: blocks and default edges of the third pass, jump edges of
+    the fourth -/
+def graphOf (ins : List Ins) (nexts : List (List Nat)) : Except Err (List RawBlock) :=
+  fourthPass (createBB ins nexts).1 nexts
+    ((createBB ins nexts).2.foldl (fun bs (e : Nat × Nat) => addEdge bs e.1 e.2)
+      ((createBB ins nexts).1.map fun b => ({ ins := b } : RawBlock)))
+
 /-- THE GRAPH parse_teal BUILDS IS WELL-FORMED: after the third pass (blocks and default edges) and the fourth pass (jump
     edges), every successor of every block is the index of a created block -/
 theorem passes_wf (ins : List Ins) (nexts : List (List Nat)) (bs : List RawBlock)
